@@ -36,6 +36,24 @@ func vCatalogCheck(h *verifh.H, hub *VHub, names map[string]map[string]bool, gon
 			items[name] = vRenderVal(e.Properties[info.ItemsKey])
 		}
 	}
+	pubs := map[string]string{}
+	for _, e := range res.Entities {
+		name, _ := e.Properties[info.NameKey].(string)
+		if !e.IsDeleted {
+			pubs[name] = vRenderNs(e.Properties[info.PublicNamespacesKey])
+		}
+	}
+	for n := range names {
+		// the meta-entity carries the dataset's public-namespace setting: what the catalogue says is
+		// what the dataset object (and, after a restart, the stored dataset record) says
+		if d := hub.Dsm.GetDataset(n); d != nil {
+			var have []interface{}
+			for _, x := range d.PublicNamespaces {
+				have = append(have, x)
+			}
+			h.Assert(pubs[n] == vRenderNs(have), "the live meta-entity carries the dataset's public namespaces :: "+when+" name="+n+" meta="+pubs[n]+" dataset="+vRenderNs(have))
+		}
+	}
 	for n, ids := range names {
 		h.Assert(live[n] == 1, "each existing dataset has exactly one live meta-entity :: "+when+" name="+n+" live="+itoa(live[n]))
 		h.Assert(items[n] == itoa(len(ids)), "the items counter equals the number of distinct ids ever stored :: "+when+" name="+n+" items="+items[n]+" want="+itoa(len(ids)))
@@ -86,9 +104,12 @@ func VerifC19Catalog(h *verifh.H) {
 	vCatalogCheck(h, hub, names, gone, "initial")
 	nops := h.Param("ops", 2)
 	for k := 0; k < nops; k++ {
-		op := h.Choice("op", 7+h.Param("mirror", 0))
+		op := h.Choice("op", 7+h.Param("mirror", 0)+h.Param("nsBatch", 0))
+		if h.Param("nsBatch", 0) == 1 && h.Param("mirror", 0) == 0 && op == 7 {
+			op = 8
+		}
 		if h.Param("lifecycleOnly", 0) == 1 {
-			h.Assume(op == 3 || op == 5 || op == 6) // delete, re-create, restart
+			h.Assume(op == 3 || op == 4 || op == 5 || op == 6 || op == 8) // delete, rename, re-create, restart, catalogue batch
 		}
 		when := "op" + itoa(k) + "=" + itoa(op)
 		switch op {
@@ -156,6 +177,35 @@ func VerifC19Catalog(h *verifh.H) {
 				h.Assert(hub.Dsm.GetDataset("b").StoreEntities([]*Entity{cp}) == nil, "mirror accepted")
 				names["b"][e.ID] = true
 			}
+		case 8: // the public namespaces of every existing dataset are edited through the catalogue in
+			// ONE batch to core.Dataset that also carries the tombstones of datasets that are gone
+			// (what a client that syncs the whole catalogue back sends), tombstones first
+			info, err := hub.Store.NamespaceManager.GetDatasetNamespaceInfo()
+			h.Assert(err == nil, "dataset namespace known")
+			res, err := hub.Dsm.GetDataset("core.Dataset").GetEntities("", -1)
+			h.Assert(err == nil, "core.Dataset readable")
+			var tomb, lives []*Entity
+			for _, e := range res.Entities {
+				n, _ := e.Properties[info.NameKey].(string)
+				if n == "core.Dataset" {
+					continue
+				}
+				cp := NewEntity(e.ID, 0)
+				cp.IsDeleted = e.IsDeleted
+				for k, v := range e.Properties {
+					cp.Properties[k] = v
+				}
+				for k, v := range e.References {
+					cp.References[k] = v
+				}
+				if e.IsDeleted {
+					tomb = append(tomb, cp)
+				} else {
+					cp.Properties[info.PublicNamespacesKey] = []interface{}{"http://example.com/edited" + itoa(k) + "/"}
+					lives = append(lives, cp)
+				}
+			}
+			h.Assert(hub.Dsm.GetDataset("core.Dataset").StoreEntities(append(tomb, lives...)) == nil, "catalogue batch accepted")
 		case 5: // re-create
 			if cur != "" {
 				h.Assume(false)
@@ -183,6 +233,24 @@ func vItems(h *verifh.H, hub *VHub, name string) string {
 		n, _ := e.Properties[info.NameKey].(string)
 		if n == name && !e.IsDeleted {
 			out = vRenderVal(e.Properties[info.ItemsKey])
+		}
+	}
+	return out
+}
+
+// vRenderNs renders a public-namespaces value (nil, []string or []interface{}).
+func vRenderNs(v interface{}) string {
+	out := ""
+	switch x := v.(type) {
+	case []interface{}:
+		for _, e := range x {
+			if s, ok := e.(string); ok {
+				out += s + " "
+			}
+		}
+	case []string:
+		for _, e := range x {
+			out += e + " "
 		}
 	}
 	return out
